@@ -934,8 +934,14 @@ func c03Fresh(c *Ctx) {
 					break
 				}
 				if a.kind == "Rep" {
-					if !(len(a.alts) == 1 && len(a.alts[0]) == 1 && a.alts[0][0].kind == "PopStackPutEnvInstr") {
+					// every way round the loop binds exactly one parameter
+					if len(a.alts) == 0 {
 						okParams = false
+					}
+					for _, alt := range a.alts {
+						if !(len(alt) == 1 && alt[0].kind == "PopStackPutEnvInstr") {
+							okParams = false
+						}
 					}
 					continue
 				}
